@@ -249,7 +249,7 @@ HasReg(e) == "reg" \in DOMAIN e
 Missing == [sym |-> "missing"]
 Appends(e) == IsInit(e) \/ (~IsNum(e) /\ ~IsMNum(e) /\ ~IsFact(e) /\ e.op # "ncon" /\ (IF HasReg(e) THEN e.reg ELSE e.out = "ok"))
 NewReg(e) == IF "obs" \in DOMAIN e THEN N(e.obs) ELSE Missing
-OperandMissing(e) == ~IsInit(e) /\ e.out = "operand missing (an earlier step failed in this execution)"
+OperandMissing(e) == ~IsInit(e) /\ "out" \in DOMAIN e /\ e.out = "operand missing (an earlier step failed in this execution)"
 Init == tid \in 1..Len(Traces) /\ l = 1 /\ reg = <<>>
 Step == /\ l \in 1..Len(Ev) /\ (OperandMissing(Ev[l]) \/ Ok(Ev[l]) = TRUE) /\ l' = l + 1 /\ UNCHANGED tid
         /\ reg' = IF Appends(Ev[l]) THEN Append(reg, NewReg(Ev[l])) ELSE reg
